@@ -140,6 +140,9 @@ class Engine(_Base, ExprMixin, CallMixin, StmtMixin):
         except Unsupported as e:
             res['status'] = 'undecided'
             res['error'] = str(e)
+            import os
+            if os.environ.get('PYVC_DEBUG'):
+                traceback.print_exc()
         except z3.Z3Exception as e:
             res['status'] = 'crash'
             res['error'] = 'z3: %s\n%s' % (e, traceback.format_exc())
@@ -199,6 +202,9 @@ class Engine(_Base, ExprMixin, CallMixin, StmtMixin):
         n_norm = 0
         normals = []
         for s in finals:
+            fin = s.copy()
+            fin.exc = None
+            self.cur_final = fin
             if s.exc is None or s.exc[0] == 'return':
                 result = s.exc[1] if s.exc is not None else VNone()
                 s.exc = None
